@@ -52,13 +52,14 @@ theorem mkAddedDiag_refines (c : ADCls) (x y r : Op α) (h : mkAddedDiag c x y =
     | (cases h; simp [denote, add_comm])
     | (cases h)
 
-theorem mkTri_refines (up : Bool) (t r : Op α) (h : mkTri up t = .ok r) (i j : Nat) :
-    r.denote i j = t.denote i j := by
-  unfold mkTri at h
-  split at h
-  · cases h; simp [denote]
-  · split_ifs at h; cases h; simp [denote]
+theorem mkTri_refines (up : Bool) (t : Op α) (i j : Nat) : (mkTri up t).denote i j = t.denote i j := by
+  unfold mkTri; split <;> simp [denote]
 
+theorem rows_mkTri (up : Bool) (t : Op α) : (mkTri up t).rows = t.rows := by
+  unfold mkTri; split <;> simp [rows]
+
+theorem cols_mkTri (up : Bool) (t : Op α) : (mkTri up t).cols = t.cols := by
+  unfold mkTri; split <;> simp [cols]
 
 theorem diagAdd_refines (a b r : Op α) (h : diagAdd a b = .ok r) (i j : Nat) :
     r.denote i j = a.denote i j + b.denote i j := by
@@ -79,6 +80,10 @@ theorem rootT_refines (r : Op α) (i j : Nat) : (rootT r).denote i j = r.denote 
   unfold rootT
   split <;> simp [denote]
 
+theorem rootT_rows (r : Op α) : (rootT r).rows = r.cols := by
+  unfold rootT
+  split <;> simp [rows, cols]
+
 theorem denote_root_form (b : Op α) (hb : b.isRoot = true) (i j : Nat) :
     b.denote i j = sumN b.rootOf.cols fun k => b.rootOf.denote i k * b.rootOf.denote j k := by
   cases b <;> simp [isRoot] at hb <;> simp [denote, rootOf]
@@ -92,7 +97,7 @@ theorem baseAdd_refines (a b r : Op α) (h : baseAdd a b = .ok r) (i j : Nat) :
     simp [denote]
   · exact mkAddedDiag_refines _ _ _ _ h i j
   · cases h
-    simp only [denote, denoteL, add_zero]
+    simp only [denote, denoteL, add_zero, rootT_rows, Nat.min_self]
     rw [denote_root_form b h3]
     congr 1
     apply sumN_congr
@@ -144,10 +149,11 @@ theorem bind_ok {ε β γ : Type} (x : Except ε β) (f : β → Except ε γ) (
   | error e => cases h
   | ok y => exact ⟨y, rfl, h⟩
 
-/-! ### scalars: Mul constructor -/
-
-theorem mkMul_refines (a b : Op α) (i j : Nat) : (mkMul a b).denote i j = a.denote i j * b.denote i j := by
-  unfold mkMul; split_ifs <;> simp [denote, mul_comm]
+theorem map_ok {ε β γ : Type} (x : Except ε β) (f : β → γ) (r : γ) (h : (x >>= fun y => pure (f y)) = .ok r) :
+    ∃ y, x = .ok y ∧ r = f y := by
+  cases x with
+  | error e => cases h
+  | ok y => cases h; exact ⟨y, rfl, rfl⟩
 
 theorem add_refines (a b r : Op α) (h : add a b = .ok r) (i j : Nat) :
     r.denote i j = a.denote i j + b.denote i j := by
@@ -159,10 +165,12 @@ theorem add_refines (a b r : Op α) (h : add a b = .ok r) (i j : Nat) :
     | exact sumAdd_refines _ _ _ h i j
     | exact kronAdd_refines _ _ _ h i j
     | exact mkAddedDiag_refines _ _ _ _ h i j
+    | (obtain ⟨y, h1, rfl⟩ := map_ok _ _ _ h
+       first
+        | (rw [mkTri_refines, mkAddedDiag_refines _ _ _ _ h1]; simp [denote]; done)
+        | (rename_i ih; rw [mkTri_refines, ih _ h1]; simp [denote]; done))
     | (obtain ⟨y, h1, h2⟩ := bind_ok _ _ _ h
        first
-        | (rw [mkTri_refines _ _ _ h2, mkAddedDiag_refines _ _ _ _ h1]; simp [denote]; done)
-        | (rename_i ih; rw [mkTri_refines _ _ _ h2, ih _ h1]; simp [denote]; done)
         | (rw [mkAddedDiag_refines _ _ _ _ h2, diagAdd_refines _ _ _ h1]; simp [denote, add_assoc, add_comm, add_left_comm]; done)
         | (rename_i ih; rw [mkAddedDiag_refines _ _ _ _ h2, ih _ h1]; simp [denote, add_assoc, add_comm, add_left_comm]; done))
     | (rename_i ih; rw [ih _ h]; simp [denote]; done)
@@ -188,10 +196,10 @@ theorem addDiagonal_refines (a r : Op α) (g : DiagArg α) (h : addDiagonal a g 
     | (cases h <;> simp [denote] <;> done)
     | exact diagAddDiagonal_refines _ _ _ h i j
     | (rw [mkAddedDiag_refines _ _ _ _ h, DiagArg.toOp_denote]; done)
+    | (obtain ⟨y, h1, rfl⟩ := map_ok _ _ _ h
+       rename_i ih; rw [mkTri_refines, ih _ h1]; simp [denote]; done)
     | (obtain ⟨y, h1, h2⟩ := bind_ok _ _ _ h
-       first
-        | (rename_i ih; rw [mkTri_refines _ _ _ h2, ih _ h1]; simp [denote]; done)
-        | (rw [mkAddedDiag_refines _ _ _ _ h2, diagAddDiagonal_refines _ _ _ h1]; simp [denote, add_assoc]; done))
+       rw [mkAddedDiag_refines _ _ _ _ h2, diagAddDiagonal_refines _ _ _ h1]; simp [denote, add_assoc]; done)
 
 theorem addJitter_refines (a r : Op α) (c : α) (h : addJitter a c = .ok r) (i j : Nat) :
     r.denote i j = a.denote i j + (if i = j then c else 0) := by
@@ -207,7 +215,8 @@ theorem addJitter_refines (a r : Op α) (c : α) (h : addJitter a c = .ok r) (i 
 
 /-! ### matmul with an operator -/
 
-theorem matmulOp_refines (a b r : Op α) (h : matmulOp a b = .ok r) (i j : Nat) (hi : i < a.rows) :
+theorem matmulOp_refines (a b r : Op α) (h : matmulOp a b = .ok r) (i j : Nat) (hi : i < a.rows)
+    (hk : a.cols = b.rows) :
     r.denote i j = sumN a.cols fun k => a.denote i k * b.denote k j := by
   unfold matmulOp at h
   split at h
@@ -235,12 +244,12 @@ theorem matmulOp_refines (a b r : Op α) (h : matmulOp a b = .ok r) (i j : Nat) 
       split at h
       · cases h; simp [denote, key]
       · cases h; simp [denote, key]
-      · cases h; simp [denote]
+      · cases h; simp only [rows] at hk; simp [denote, ← hk]
       · split_ifs at h with h4
         · cases h
           rw [key, denote_of_isDiag b h4]
           by_cases hij : i = j <;> simp [denote, hij]
-        · cases h; simp [denote]
-    · cases h; simp [denote]
+        · cases h; simp [denote, ← hk]
+    · cases h; simp [denote, ← hk]
 
 end LinOp.C02
